@@ -16,6 +16,9 @@ import (
 // (static callee when there is one).
 func (w *World) calleesOf(site ssa.CallInstruction) []*ssa.Function {
 	if fn := site.Common().StaticCallee(); fn != nil {
+		if extra := w.implicitFormatCallees(site, fn); len(extra) > 0 {
+			return append([]*ssa.Function{fn}, extra...)
+		}
 		return []*ssa.Function{fn}
 	}
 	var out []*ssa.Function
@@ -580,5 +583,64 @@ func valuesAfter(fn *ssa.Function, call ssa.CallInstruction, v ssa.Value, keep e
 		}
 	}
 	walk(v)
+	return out
+}
+
+// implicitFormatCallees: a value of a package type that has a String() or Error() method, handed to a formatting or
+// logging function of a library (fmt.*, zap.Stringer/Any/Reflect/Error), has that method called while the statement
+// runs - zap evaluates a Stringer field inside Info(), in the caller's thread, under whatever locks the caller holds.
+// The call graph has no such edge (it goes through the library and an interface), so it is added here.
+func (w *World) implicitFormatCallees(site ssa.CallInstruction, callee *ssa.Function) []*ssa.Function {
+	if callee.Pkg == nil || callee.Pkg == w.Main {
+		return nil
+	}
+	path := callee.Pkg.Pkg.Path()
+	if path != "fmt" && path != "go.uber.org/zap" && path != "log" {
+		return nil
+	}
+	var vals []ssa.Value
+	for _, a := range site.Common().Args {
+		if els := varargs(a); els != nil {
+			vals = append(vals, els...)
+		} else {
+			vals = append(vals, a)
+		}
+	}
+	var out []*ssa.Function
+	seen := map[*ssa.Function]bool{}
+	for _, v := range vals {
+		x := v
+		for i := 0; i < 4; i++ {
+			if mi, ok := x.(*ssa.MakeInterface); ok {
+				x = mi.X
+				continue
+			}
+			if ci, ok := x.(*ssa.ChangeInterface); ok {
+				x = ci.X
+				continue
+			}
+			break
+		}
+		t := x.Type()
+		if _, isIface := t.Underlying().(*types.Interface); isIface {
+			continue // dynamic type unknown here
+		}
+		ms := w.Prog.MethodSets.MethodSet(t)
+		for _, name := range []string{"String", "Error"} {
+			sel := ms.Lookup(nil, name)
+			if sel == nil {
+				sel = ms.Lookup(w.Main.Pkg, name)
+			}
+			if sel == nil {
+				continue
+			}
+			m := w.Prog.MethodValue(sel)
+			if m == nil || !w.isMain(m) || seen[m] {
+				continue
+			}
+			seen[m] = true
+			out = append(out, m)
+		}
+	}
 	return out
 }
